@@ -29,11 +29,15 @@ import (
 type concScenario struct {
 	Types   []string `json:"types"` // type argument of each coroutine's Box
 	Bound   int      `json:"bound"`
+	Shared  bool     `json:"shared,omitempty"` // the coroutines are spawned from ONE closure in a loop: they share the `new Box<T>` site (all Types equal)
 	Choices []int    `json:"choices,omitempty"`
 	Sites   []string `json:"sites,omitempty"`
 }
 
 func (s concScenario) String() string {
+	if s.Shared {
+		return fmt.Sprintf("conc %d coroutines at one site new Box<%s> pb=%d", len(s.Types), s.Types[0], s.Bound)
+	}
 	return fmt.Sprintf("conc Box<%s> pb=%d", strings.Join(s.Types, ">||Box<"), s.Bound)
 }
 
@@ -43,6 +47,18 @@ var concKinds = []string{"int", "string", "array"}
 func concScript(sc concScenario) string {
 	var sb strings.Builder
 	sb.WriteString("class Box<T> { public T $v; function put(T $x) { $this->v = $x; return $this; } }\n")
+	if sc.Shared {
+		// one closure, spawned len(Types) times: every coroutine executes the same `new Box<T>()` node
+		fmt.Fprintf(&sb, "for ($i = 0; $i < %d; $i = $i + 1) {\nspawn(function() use ($i) {\n  gate(); $b = new Box<%s>(); gate();\n", len(sc.Types), sc.Types[0])
+		for _, k := range concKinds {
+			fmt.Fprintf(&sb, "  try { $b->v = %s; crec($i, \"%s\", 1); } catch (Throwable $e) { crec($i, \"%s\", 0); } gate();\n", concLits[k], k, k)
+		}
+		for _, k := range concKinds {
+			fmt.Fprintf(&sb, "  try { $b->put(%s); crec($i, \"put-%s\", 1); } catch (Throwable $e) { crec($i, \"put-%s\", 0); } gate();\n", concLits[k], k, k)
+		}
+		sb.WriteString("});\n}\n")
+		return sb.String()
+	}
 	for i, t := range sc.Types {
 		fmt.Fprintf(&sb, "spawn(function() {\n  gate(); $b = new Box<%s>(); gate();\n", t)
 		for _, k := range concKinds {
@@ -154,7 +170,11 @@ func concWorker(w *pool.W, arg json.RawMessage) {
 						if got == 1 {
 							w = "accepted"
 						}
-						emit(x, fmt.Sprintf("conc-acceptance: Box<%s> %s %s%s with concurrent Box<%s>", t, w, via, k, strings.Join(others(sc.Types, i), ",")),
+						with := "with concurrent Box<" + strings.Join(others(sc.Types, i), ",") + ">"
+						if sc.Shared {
+							with = "created at a `new` site shared by " + fmt.Sprint(len(sc.Types)) + " coroutines"
+						}
+						emit(x, fmt.Sprintf("conc-acceptance: Box<%s> %s %s%s %s", t, w, via, k, with),
 							fmt.Sprintf("coroutine %d holds Box<%s>; a %s value through %s was %s", i, t, k, map[string]string{"": "direct store", "put-": "setter"}[via], w))
 					}
 				}
@@ -182,7 +202,13 @@ func concScenarios(quick bool) []concScenario {
 			out = append(out, concScenario{Types: []string{a, b}, Bound: 2})
 		}
 	}
+	for _, a := range concKinds {
+		out = append(out, concScenario{Types: []string{a, a}, Bound: 2, Shared: true})
+	}
 	if !quick {
+		for _, a := range concKinds {
+			out = append(out, concScenario{Types: []string{a, a, a}, Bound: 2, Shared: true})
+		}
 		for _, a := range concKinds {
 			for _, b := range concKinds {
 				out = append(out, concScenario{Types: []string{a, b}, Bound: 3})
